@@ -232,7 +232,8 @@ PROPS = {
     "C03": {
         "title": "Untrusted bytes never crash the decoder, the client or the reassembler",
         "profiles": ["dev", "release"],
-        "thorough_profiles": ["asan", "miri"],
+        "thorough_profiles": ["asan", "miri", "fuzz"],
+        "fuzz_seconds": 180,
         "scale": {"asan": 0.25, "miri": 0.003},
         "crash_is_violation": True,
         "cpu_stall_limit": 60,
